@@ -1,0 +1,325 @@
+//go:build verif
+
+package harfbuzz
+
+import (
+	"encoding/binary"
+	"fmt"
+	"sort"
+
+	"github.com/go-text/typesetting/font"
+	"github.com/go-text/typesetting/font/opentype/tables"
+)
+
+// Hooks for the verification harness (property C18, window-local rule engines): the real legacy
+// kerning (otApplyFallbackKern -> kern), the real GSUB single / ligature substitution and the real
+// GPOS mark-to-base attachment, each driven through the real lookup loop (otMap.apply ->
+// applyString -> applyForward) on a real Buffer, with synthetic tables.
+// Nothing here changes behaviour; the file is only compiled with -tags verif.
+
+// VerifItem is a GlyphInfo together with its GlyphPosition, reduced to what the engine reads or writes.
+type VerifItem struct {
+	Cluster                              int
+	Mask                                 uint32
+	Glyph                                GID
+	Unicode                              uint16
+	GlyphProps                           uint16
+	LigProps                             uint8
+	XAdvance, YAdvance, XOffset, YOffset int32
+	AttachChain                          int16
+	AttachType                           uint8
+}
+
+// VerifEngineBuf is the buffer state the engine models talk about.
+type VerifEngineBuf struct {
+	Items         []VerifItem
+	Level         ClusterLevel
+	Flags         ShappingOptions
+	HasGlyphFlags bool
+	Direction     Direction
+}
+
+func verifEngineBuffer(in VerifEngineBuf) *Buffer {
+	b := NewBuffer()
+	b.Info = make([]GlyphInfo, len(in.Items))
+	b.Pos = make([]GlyphPosition, len(in.Items))
+	for i, it := range in.Items {
+		b.Info[i] = GlyphInfo{Cluster: it.Cluster, Mask: it.Mask, Glyph: it.Glyph, unicode: unicodeProp(it.Unicode),
+			glyphProps: it.GlyphProps, ligProps: it.LigProps}
+		b.Pos[i] = GlyphPosition{XAdvance: it.XAdvance, YAdvance: it.YAdvance, XOffset: it.XOffset, YOffset: it.YOffset,
+			attachChain: it.AttachChain, attachType: it.AttachType}
+	}
+	b.ClusterLevel = in.Level
+	b.Flags = in.Flags
+	b.Props.Direction = in.Direction
+	// the limits shapeInternal sets
+	b.maxOps = max(len(b.Info)*1024, 16384)
+	b.maxLen = max(len(b.Info)*64, 16384)
+	if in.HasGlyphFlags {
+		b.scratchFlags |= bsfHasGlyphFlags
+	}
+	return b
+}
+
+func verifEngineState(b *Buffer, in VerifEngineBuf) VerifEngineBuf {
+	out := VerifEngineBuf{Level: b.ClusterLevel, Flags: b.Flags, Direction: b.Props.Direction,
+		HasGlyphFlags: b.scratchFlags&bsfHasGlyphFlags != 0}
+	out.Items = make([]VerifItem, len(b.Info))
+	for i, g := range b.Info {
+		it := VerifItem{Cluster: g.Cluster, Mask: g.Mask, Glyph: g.Glyph, Unicode: uint16(g.unicode),
+			GlyphProps: g.glyphProps, LigProps: g.ligProps}
+		if i < len(b.Pos) {
+			p := b.Pos[i]
+			it.XAdvance, it.YAdvance, it.XOffset, it.YOffset = p.XAdvance, p.YAdvance, p.XOffset, p.YOffset
+			it.AttachChain, it.AttachType = p.attachChain, p.attachType
+		}
+		out.Items[i] = it
+	}
+	return out
+}
+
+// a font without any table; the scale equals the (power of two) upem, so that the float
+// conversions of getAnchor are exact
+func verifEngineFont(f *font.Font) *Font {
+	if f == nil {
+		f = &font.Font{}
+	}
+	return &Font{face: font.NewFace(f), faceUpem: 1024, XScale: 1024, YScale: 1024}
+}
+
+func verifRecover(msg *string) {
+	if r := recover(); r != nil {
+		*msg = fmt.Sprint(r)
+	}
+}
+
+// VerifFallbackKern runs (*otShapePlan).otApplyFallbackKern (hence kern) with a 'kern' table made
+// of one format 0 subtable holding the given (left, right, value) pairs.
+func VerifFallbackKern(in VerifEngineBuf, pairs [][3]int, kernMask uint32) (out VerifEngineBuf, panicMsg string) {
+	defer verifRecover(&panicMsg)
+	recs := make(font.Kern0, 0, len(pairs))
+	seen := map[[2]int]bool{}
+	for _, p := range pairs {
+		if seen[[2]int{p[0], p[1]}] {
+			continue
+		}
+		seen[[2]int{p[0], p[1]}] = true
+		recs = append(recs, tables.Kernx0Record{Left: tables.GlyphID(p[0]), Right: tables.GlyphID(p[1]), Value: int16(p[2])})
+	}
+	sort.Slice(recs, func(i, j int) bool {
+		if recs[i].Left != recs[j].Left {
+			return recs[i].Left < recs[j].Left
+		}
+		return recs[i].Right < recs[j].Right
+	})
+	fnt := verifEngineFont(&font.Font{Kern: font.Kernx{{Data: recs}}})
+	b := verifEngineBuffer(in)
+	sp := &otShapePlan{kernMask: kernMask}
+	sp.otApplyFallbackKern(fnt, b)
+	return verifEngineState(b, in), ""
+}
+
+// VerifGSUBLookup is a synthetic GSUB lookup with one subtable: a single substitution (format 2)
+// when Ligs is nil, else a ligature substitution.
+type VerifGSUBLookup struct {
+	Flag    uint16 // lookup flag (otIgnoreMarks ...)
+	Mask    uint32
+	Singles [][2]int // (glyph, substitute), any order
+	Ligs    []VerifLigature
+}
+
+// VerifLigature : Comps[0] is the first (covered) glyph
+type VerifLigature struct {
+	Comps []int
+	Lig   int
+}
+
+func verifCoverage(gids []int) (tables.Coverage1, map[int]int) {
+	s := append([]int(nil), gids...)
+	sort.Ints(s)
+	var cov tables.Coverage1
+	index := map[int]int{}
+	for _, g := range s {
+		if _, ok := index[g]; ok {
+			continue
+		}
+		index[g] = len(cov.Glyphs)
+		cov.Glyphs = append(cov.Glyphs, tables.GlyphID(g))
+	}
+	return cov, index
+}
+
+func verifGSUBSubtable(l VerifGSUBLookup) tables.GSUBLookup {
+	if l.Ligs == nil {
+		var firsts []int
+		for _, s := range l.Singles {
+			firsts = append(firsts, s[0])
+		}
+		cov, index := verifCoverage(firsts)
+		subst := make([]tables.GlyphID, len(cov.Glyphs))
+		done := map[int]bool{}
+		for _, s := range l.Singles {
+			if !done[s[0]] { // the first entry of a glyph wins
+				done[s[0]] = true
+				subst[index[s[0]]] = tables.GlyphID(s[1])
+			}
+		}
+		return tables.SingleSubs{Data: tables.SingleSubstData2{Coverage: cov, SubstituteGlyphIDs: subst}}
+	}
+	var firsts []int
+	for _, lg := range l.Ligs {
+		firsts = append(firsts, lg.Comps[0])
+	}
+	cov, index := verifCoverage(firsts)
+	sets := make([]tables.LigatureSet, len(cov.Glyphs))
+	for _, lg := range l.Ligs { // ligatures of one first glyph keep their order (preference)
+		comps := make([]tables.GlyphID, len(lg.Comps)-1)
+		for i, c := range lg.Comps[1:] {
+			comps[i] = tables.GlyphID(c)
+		}
+		i := index[lg.Comps[0]]
+		sets[i].Ligatures = append(sets[i].Ligatures, tables.Ligature{LigatureGlyph: tables.GlyphID(lg.Lig), ComponentGlyphIDs: comps})
+	}
+	return tables.LigatureSubs{Coverage: cov, LigatureSets: sets}
+}
+
+// VerifApplyGSUB applies the lookups, in order, through otMap.apply (one stage).
+func VerifApplyGSUB(in VerifEngineBuf, lookups []VerifGSUBLookup) (out VerifEngineBuf, panicMsg string) {
+	defer verifRecover(&panicMsg)
+	fnt := verifEngineFont(nil)
+	var m otMap
+	accels := make([]otLayoutLookupAccelerator, len(lookups))
+	for i, l := range lookups {
+		accels[i].init(lookupGSUB(font.GSUBLookup{LookupOptions: font.LookupOptions{Flag: l.Flag},
+			Subtables: []tables.GSUBLookup{verifGSUBSubtable(l)}}))
+		m.lookups[0] = append(m.lookups[0], lookupMap{index: uint16(i), autoZWNJ: true, autoZWJ: true, mask: l.Mask})
+	}
+	m.stages[0] = []stageMap{{lastLookup: len(lookups)}}
+	b := verifEngineBuffer(in)
+	m.apply(otProxy{otProxyMeta: proxyGSUB, accels: accels}, nil, fnt, b)
+	return verifEngineState(b, in), ""
+}
+
+// VerifMarkBase is a synthetic MarkBasePos subtable: Marks = (glyph, class, x, y); Bases = glyph and,
+// per mark class, (present, x, y).
+type VerifMarkBase struct {
+	Flag    uint16
+	Mask    uint32
+	Classes int
+	Marks   [][4]int
+	Bases   []VerifBase
+}
+
+type VerifBase struct {
+	Glyph   int
+	Anchors [][3]int
+}
+
+func verifPut16(b []byte, v int) []byte { return binary.BigEndian.AppendUint16(b, uint16(v)) }
+
+func verifCoverageBytes(gids []int) []byte {
+	b := verifPut16(nil, 1)
+	b = verifPut16(b, len(gids))
+	for _, g := range gids {
+		b = verifPut16(b, g)
+	}
+	return b
+}
+
+// serialises the subtable (format 1) and reads it back with the library's own parser
+func verifMarkBaseTable(t VerifMarkBase) (tables.MarkBasePos, error) {
+	marks := append([][4]int(nil), t.Marks...)
+	sort.SliceStable(marks, func(i, j int) bool { return marks[i][0] < marks[j][0] })
+	var mk [][4]int
+	for _, m := range marks {
+		if len(mk) == 0 || mk[len(mk)-1][0] != m[0] {
+			mk = append(mk, m)
+		}
+	}
+	bases := append([]VerifBase(nil), t.Bases...)
+	sort.SliceStable(bases, func(i, j int) bool { return bases[i].Glyph < bases[j].Glyph })
+	var bs []VerifBase
+	for _, x := range bases {
+		if len(bs) == 0 || bs[len(bs)-1].Glyph != x.Glyph {
+			bs = append(bs, x)
+		}
+	}
+	var markG, baseG []int
+	for _, m := range mk {
+		markG = append(markG, m[0])
+	}
+	for _, x := range bs {
+		baseG = append(baseG, x.Glyph)
+	}
+	markCov, baseCov := verifCoverageBytes(markG), verifCoverageBytes(baseG)
+	// MarkArray
+	markArray := verifPut16(nil, len(mk))
+	anchorsAt := 2 + 4*len(mk)
+	for i, m := range mk {
+		markArray = verifPut16(markArray, m[1])
+		markArray = verifPut16(markArray, anchorsAt+6*i)
+	}
+	for _, m := range mk {
+		markArray = verifPut16(markArray, 1)
+		markArray = verifPut16(markArray, m[2])
+		markArray = verifPut16(markArray, m[3])
+	}
+	// BaseArray
+	baseArray := verifPut16(nil, len(bs))
+	var anchors []byte
+	at := 2 + 2*t.Classes*len(bs)
+	for _, x := range bs {
+		for c := 0; c < t.Classes; c++ {
+			if c < len(x.Anchors) && x.Anchors[c][0] != 0 {
+				baseArray = verifPut16(baseArray, at+len(anchors))
+				anchors = verifPut16(anchors, 1)
+				anchors = verifPut16(anchors, x.Anchors[c][1])
+				anchors = verifPut16(anchors, x.Anchors[c][2])
+			} else {
+				baseArray = verifPut16(baseArray, 0)
+			}
+		}
+	}
+	baseArray = append(baseArray, anchors...)
+	head := verifPut16(nil, 1)
+	off := 12
+	head = verifPut16(head, off)
+	off += len(markCov)
+	head = verifPut16(head, off)
+	off += len(baseCov)
+	head = verifPut16(head, t.Classes)
+	head = verifPut16(head, off)
+	off += len(markArray)
+	head = verifPut16(head, off)
+	src := append(append(append(append(head, markCov...), baseCov...), markArray...), baseArray...)
+	out, _, err := tables.ParseMarkBasePos(src)
+	return out, err
+}
+
+// VerifApplyMarkBase applies the MarkBasePos lookups, in order, through otMap.apply (GPOS proxy, one stage).
+func VerifApplyMarkBase(in VerifEngineBuf, lookups []VerifMarkBase) (out VerifEngineBuf, panicMsg string) {
+	defer verifRecover(&panicMsg)
+	fnt := verifEngineFont(nil)
+	var m otMap
+	accels := make([]otLayoutLookupAccelerator, len(lookups))
+	for i, l := range lookups {
+		sub, err := verifMarkBaseTable(l)
+		if err != nil {
+			return out, "table: " + err.Error()
+		}
+		accels[i].init(lookupGPOS(font.GPOSLookup{LookupOptions: font.LookupOptions{Flag: l.Flag},
+			Subtables: []tables.GPOSLookup{sub}}))
+		m.lookups[1] = append(m.lookups[1], lookupMap{index: uint16(i), autoZWNJ: true, autoZWJ: true, mask: l.Mask})
+	}
+	m.stages[1] = []stageMap{{lastLookup: len(lookups)}}
+	b := verifEngineBuffer(in)
+	m.apply(otProxy{otProxyMeta: proxyGPOS, accels: accels}, nil, fnt, b)
+	return verifEngineState(b, in), ""
+}
+
+// VerifPropagateFlags runs propagateFlags on the items.
+func VerifPropagateFlags(in VerifEngineBuf) VerifEngineBuf {
+	b := verifEngineBuffer(in)
+	propagateFlags(b)
+	return verifEngineState(b, in)
+}
